@@ -13,8 +13,8 @@ import (
 // BFS explores every event sequence within the bounds, breadth first, de-duplicating on Canon().
 func BFS(r *ev.Run, replicas, maxRep int, b Bounds, depth int, tags map[string]bool, workers int) {
 	// every live replica owns a 1.15 GB hyper cache (plus one for the fault-free replica): the number of
-	// workers is bounded so that a search stays below ~24 GB whatever the machine offers
-	if lim := 20 / (maxRep + 1); workers > lim {
+	// workers is bounded so that a search stays below ~16 GB of live caches (the Go soft memory limit set by bin/vcheck keeps garbage from doubling that) whatever the machine offers
+	if lim := 14 / (maxRep + 1); workers > lim {
 		workers = lim
 	}
 	if workers < 2 {
